@@ -40,7 +40,9 @@ def gen_ops(rng, d, n, length):
         elif r < 0.94:
             # in-place arithmetic through the handle: += or -= (the model sees the signed amount)
             ops.append({"k": "iadd", "p": p, "v": rng.choice([1, -1, 2, 0]), "held": rng.random() < 0.3,
-                        "how": rng.choice(["iadd", "iadd", "isub"])})
+                        # "elem": through the element found by position (e = fiber[pos]; e += v),
+                        # "item": fiber[pos] += v — both only where the point is stored, else as "iadd"
+                        "how": rng.choice(["iadd", "iadd", "isub", "elem", "item"])})
         else:
             ops.append({"k": "posref", "p": p[:1]})
     return ops
@@ -83,8 +85,26 @@ def gen(seed, tier):
         kind = "owned" if d >= 2 or rng.random() < 0.5 else "free"
         length = rng.choice([3, 6, 10]) if tier == "quick" else rng.choice([5, 12, 40])
         yield {"prop": PROP, "op": "points", "d": d, "dflt": dflt, "t": t, "kind": kind,
+               # the same default handed over as a float (7.0): defaults of other scalar types take other
+               # code paths when they are copied / boxed
+               "fdflt": rng.random() < 0.2,
                "ops": gen_ops(rng, d, n, length),
                "srcs": {str(ln): H.gen_tree(rng, d - ln, n, (1, 2, -3, 7, 0), dflt) for ln in range(1, d)}}
+
+
+def _stored_leaf(root, p):
+    """(leaf fiber, position) if every coordinate of the point p is stored, else None (raw walk, no accessor)"""
+    Fiber = H.ft().Fiber
+    f = root
+    for c in p[:-1]:
+        if c not in f.coords:
+            return None
+        f = f.payloads[f.coords.index(c)]
+        if not isinstance(f, Fiber):
+            return None
+    if p[-1] not in f.coords:
+        return None
+    return f, f.coords.index(p[-1])
 
 
 def _ranks(t):
@@ -120,6 +140,8 @@ def run(case):
         case["side"] = side
         return case
     d, dflt = case["d"], case["dflt"]
+    if case.get("fdflt"):
+        dflt = float(dflt)
     root = H.build_fiber(case["t"], d, dflt)
     tensor = None
     if case["kind"] == "owned":
@@ -153,6 +175,14 @@ def run(case):
             elif k == "assign":
                 ref = handle(p, op.get("held"))
                 ref <<= op["v"]
+                out = H.snapshot(acc.getPayloadRef(*p))
+            elif k == "iadd" and op.get("how") in ("elem", "item") and _stored_leaf(root, p) is not None:
+                leaf, pos = _stored_leaf(root, p)
+                if op["how"] == "elem":
+                    e = leaf[pos]
+                    e += op["v"]
+                else:
+                    leaf[pos] += op["v"]
                 out = H.snapshot(acc.getPayloadRef(*p))
             elif k == "iadd":
                 ref = handle(p, op.get("held"))
